@@ -22,6 +22,7 @@ LEVEL_TEXT = ("Static rules over match_expr/test_set: kind agreement, comparison
               "field (fields parsed from the Expr classes' __slots__), recursion into every child, no ignored "
               "sub-match failure, joker-consistency guard dominating the binding, copy-and-commit in the "
               "permutation loop. Decides these necessary clauses for all inputs; performs no match.")
+LEVEL_TEXT += ' Also: commutativity is answered only by membership in the literal table of commutative operators.'
 ASSUMPTIONS = ["CPython ast", "identity fields of each Expr class are its __slots__ plus a `size` constructor parameter",
                "commutative operators of the IR are + * ^ & | (doc/expression)"]
 COMMUTATIVE = set(["+", "*", "^", "&", "|"])
